@@ -7,7 +7,9 @@ regenerated  : translate/t_c12_layout.py -> gen/G_Token.v: AAD layouts of _compu
                of _seal_cursor_token/_seal_call_token, all length/version/codec constants, the envelope slicing of
                crypto.open_bytes, the armour decoding (canonical or not), AAD function and key handed to every seal/open
                call site, call order inside _unpack_and_recover_state, every raise site (message, HTTP status).
-               tie/T_Token.v proves generated = modelled and restates the theorems over the generated layouts.
+               tie/T_Token.v proves generated = modelled and restates the theorems over the generated layouts;
+               proof/L_TokenArmourTie.v (built separately) ties the canonical-armour check, so a source without it
+               breaks exactly that obligation while everything else stays checked.
 correspondence: real tokens harvested from real streams through the Falcon app (exchange stream with call state,
                producer stream; anonymous + authenticated identities; keys of several lengths), presented back through
                POST /{method}/exchange: every single-bit flip of the token text and of the sealed envelope, byte
@@ -273,6 +275,7 @@ def run(ctx: Any) -> None:
     # separate build: a source whose armour check is not canonical breaks exactly these obligations
     ctx.prove(["proof/L_TokenArmourTie.vo"], {"L_TokenArmourTie": ["armour_tie", "C12_source_served_text_is_canonical", "C12_source_text_unique"]})
 
+    ctx.log("proofs checked; harvesting tokens")
     W = World(ctx)
     rng = ctx.rng
     quick = ctx.tier == "quick"
@@ -367,7 +370,7 @@ def run(ctx: Any) -> None:
     # 1. every single-bit flip of the token text
     for nb, (app, ii, m) in enumerate(base_sets):
         cur, call = streams[(app, ii, m)]
-        stride = 4 if (quick and nb > 0) else 1  # quick: every position of the first pair of tokens, every 4th of the second
+        stride = 8 if (quick and nb > 0) else 1  # quick: every position of the first pair of tokens, every 8th of the second
         for i in range(0, len(cur), stride):
             for bit in range(8):
                 case("flip-text-cursor", app, m, _flip_text(cur, i, bit), call, IDENTS[ii], T0 + 1, base=cur, cur_sym=("TFlip", cur, i, bit))
@@ -376,13 +379,13 @@ def run(ctx: Any) -> None:
                 case("flip-text-call", app, m, cur, _flip_text(call, i, bit), IDENTS[ii], T0 + 1, base=call, call_sym=("TFlip", call, i, bit))
     # ... cursor flips against the warm app too (the cursor is opened before the cache is consulted)
     cur, call = streams[("warm", AUTHI, "prod")]
-    step = 5 if quick else 1
+    step = 10 if quick else 1
     for i in range(0, len(cur), step):
         for bit in range(8):
             case("flip-text-cursor", "warm", "prod", _flip_text(cur, i, bit), call, IDENTS[AUTHI], T0 + 1, base=cur, cur_sym=("TFlip", cur, i, bit))
 
     # 2. every single-bit flip of the sealed envelope (canonical re-encoding): version byte, nonce, ciphertext, tag
-    for app, ii, m in base_sets[: (1 if quick else None)]:
+    for app, ii, m in base_sets[: (1 if quick else 2)]:
         cur, call = streams[(app, ii, m)]
         for which, tok in (("cursor", cur), ("call", call)):
             raw = base64.b64decode(tok)
@@ -398,7 +401,7 @@ def run(ctx: Any) -> None:
                         case("flip-raw-call", app, m, cur, t, IDENTS[ii], T0 + 1, base=tok)
 
     # 3. byte substitutions, 4. truncations and extensions
-    for app, ii, m in base_sets[: (1 if quick else None)]:
+    for app, ii, m in base_sets[: (1 if quick else 2)]:
         cur, call = streams[(app, ii, m)]
         for which, tok in (("cursor", cur), ("call", call)):
             def put(t: bytes, cls: str, sym: Any = None) -> None:
@@ -617,6 +620,7 @@ def run(ctx: Any) -> None:
             return None
         return f
 
+    ctx.log(f"{len(cases)} cases generated; running the implementation")
     AUTH_CLASSES = {"flip-raw-cursor": 2, "flip-raw-call": 6, "foreign-key": None, "swap-kind": None, "cross-identity": None}
     results: list[tuple[int, int, list[int]]] = []
     seen: set[Any] = set()
@@ -647,7 +651,7 @@ def run(ctx: Any) -> None:
             "identity": repr(c["ident"]), "clock": [c["now1"], c["now2"]], "cancel": c["cancel"], "variant": c.get("variant"),
             "cursor_token": None if c["cur"] is None else c["cur"].decode("latin-1"), "call_token": None if c["call"] is None else c["call"].decode("latin-1"),
             "base_token": None if c.get("base") is None else c["base"].decode("latin-1"),
-            "status": status, "message": msg, "hooks": log,
+            "status": status, "message": msg, "hooks": [h for n, h in enumerate(log) if n == 0 or h != log[n - 1]],
         }
         fc = genuine(c["cur"], "cursor", key, c["ident"])
         fk = genuine(c["call"], "call", key, c["ident"])
@@ -697,6 +701,7 @@ def run(ctx: Any) -> None:
     ctx.sample({"class": "clock", "now - created": TTL + 1, "expected": "400 expired"})
     ctx.sample({"class": "reencode", "variant": "noncanonical", "expected": "400"})
 
+    ctx.log("implementation done; compiling tables")
     # ---- the model on the same cases --------------------------------------------------------------------------------
     names: dict[bytes, str] = {}
 
@@ -766,6 +771,7 @@ def run(ctx: Any) -> None:
         if pr.returncode != 0 or pr0.returncode != 0 or any(p.returncode != 0 for p in procs):
             ctx.obligation("correspondence:M_Token.run_case", "correspondence", False, "tables did not compile: " + ("\n".join(outs) + pr.stdout + pr.stderr)[-1500:])
             return
+        ctx.log("tables compiled; evaluating the model")
         header = (
             f'Add LoadPath "{tdir}" as C12T.\nFrom Coq Require Import List NArith ZArith Bool.\nFrom VGI Require Import Bytes Layout M_Token G_Token Corr.\n'
             "From C12T Require Import C12Tables.\nImport ListNotations.\nOpen Scope N_scope.\n"
